@@ -211,6 +211,10 @@ def build(ctx, quick):
 
 def run(ctx, quick=True):
     """returns True if a violation was reported"""
+    for kf in ctx.known:
+        # the one residual of the re-derivation on refusal (foreign RDWR file, mask with more bits than channels): its witness is the whole class
+        if kf.get("id") == "KF-C09-CHMAP-REMASK" and kf.get("status") == "known" and ctx.witness_still_fails(kf):
+            ctx.known_finding(kf)
     S = build(ctx, quick)
     out = ctx.batch([(s.name, s.text()) for s in S], workers=3)
     model_in = "".join("== %s\n%s\n" % (s.name, "\n".join(s.m)) for s in S)
